@@ -59,7 +59,7 @@ func RunNative(ov *Overlay, cases []NativeCase, race bool) (map[string]*NativeRe
 			if err := os.WriteFile(in, b, 0o644); err != nil {
 				return nil, err
 			}
-			args := []string{"test", "-tags", "verif", "-overlay", ovPath, "-vet=off", "-count=1", "-run", "^TestVerifReplay$", "-timeout", "20m"}
+			args := []string{"test", "-tags", "verif", "-overlay", ovPath, "-vet=off", "-count=1", "-ldflags=-checklinkname=0", "-run", "^TestVerifReplay$", "-timeout", "20m"}
 			if race {
 				args = append(args, "-race")
 			}
